@@ -11,9 +11,22 @@ pub mod c07;
 pub mod c08;
 pub mod c09;
 pub mod c11;
+pub mod c28;
 
 pub fn all() -> Vec<Prop> {
-    vec![c01::prop(), c02::prop(), c03::prop(), c04::prop(), c05::prop(), c06::prop(), c07::prop(), c08::prop(), c09::prop(), c11::prop()]
+    vec![
+        c01::prop(),
+        c02::prop(),
+        c03::prop(),
+        c04::prop(),
+        c05::prop(),
+        c06::prop(),
+        c07::prop(),
+        c08::prop(),
+        c09::prop(),
+        c11::prop(),
+        c28::prop(),
+    ]
 }
 
 /// Auxiliary child entry points used by custom stages (`verif aux --prop ID ...`).
